@@ -423,7 +423,12 @@ def confirm_failures(ctx, limit=6):
 def run(ctx):
     ctx.rule = ("requests = all response kinds x {no CE, projections incl. shorthand, hyperslabs, selections, "
                 "server-side functions, malformed} over a fixed 8-variable dataset and seeded random datasets "
-                "(arrays of 7 dtypes and rank 0-3, structures to depth 2, grids, sequences); a traced request is "
+                "(arrays of 7 dtypes and rank 0-3, structures to depth 2, grids, sequences, lazy and nested lazy sequences "
+                "whose source holds tuples / lists / lists of lists / numpy records), a dataset of aliased objects (views "
+                "of one buffer, shared grid maps, one object in two containers, array/list/dict attribute values), a CSV "
+                "file behind CSVHandler; served arrays read-only in every other case; source-record cases = generated "
+                "object heaps x clauses x type lookups (non-trivial when the stream is not empty and the maps return); "
+                "a traced request is "
                 "non-trivial when it is answered 200; a history when it has >= 2 requests; a schedule when it has "
                 ">= 1 preemption; distinct by (dataset, request list, schedule)")
     ctx.assumptions = [
@@ -437,6 +442,10 @@ def run(ctx):
         "subclasses; responses under tracing are compared with untraced ones on every case",
         "C13: malformed requests and the response/ssf-eval stages are covered by the ownership oracle and the "
         "history/schedule oracles, not by the write-log correspondence",
+        "C13: of a lazy data object the model covers filters and maps over the source records (nested filter, "
+        "fix_nested, child selection, type peek, iteration); record ranges, deep_map at level 2 and array_dtype are "
+        "covered by the oracles only; a store into a list the code allocated itself is not observed (only source "
+        "objects are)",
     ]
     ctx.proof_phase()
     explore(ctx, ctx.tier)
